@@ -139,6 +139,10 @@ func elementToString(formatter string, elem r.Element) (string, error) {
 	return "", zerr.NewErrorSLOT("无效的格式化字符串")
 }
 
+// maxFixedPrecision - upper bound of N in {#.N}; larger values cannot be
+// rendered by fmt (and overflow int), so they are rejected as invalid.
+const maxFixedPrecision = 1000
+
 func parseNumberFormatter(formatter string, value *value.Number) (string, error) {
 	// formatter: [+][.precision][E|%]
 	const (
@@ -198,6 +202,9 @@ func parseNumberFormatter(formatter string, value *value.Number) (string, error)
 				switch state {
 				case sFixedSign:
 					numFixedPrecision = numFixedPrecision*10 + int(ch-'0')
+					if numFixedPrecision > maxFixedPrecision {
+						return "", zerr.NewErrorSLOT("无效的格式化字符串")
+					}
 				default:
 					return "", zerr.NewErrorSLOT("无效的格式化字符串")
 				}
